@@ -142,6 +142,7 @@ def credit_fn(attempt):
 
 
 COMPLEX = 1 + 2j
+NAN = float('nan')       # not a member of any interval: every range-checked option must refuse it
 
 
 def L(fn, label):
@@ -239,6 +240,7 @@ def string_answers_opt():
         O({'expect': 'a', 'grade_decimal': -0.5}, 'out-of-range'),
         O({'expect': 'a', 'grade_decimal': 'x'}, 'wrong-type'),
         O({'expect': 'a', 'grade_decimal': COMPLEX}, 'complex'),
+        O({'expect': 'a', 'grade_decimal': NAN}, 'out-of-range', label="{'expect': 'a', 'grade_decimal': nan}"),
         O({'expect': 'a', 'msg': 5}, 'wrong-type'), O({'expect': 'a', 'ok': 'maybe'}, 'bad-literal'),
         O({'expect': 'a', 'foo': 1}, 'unknown-key'), O({'expect': 5}, 'wrong-type'), O(None, 'none'),
         O(('cat', 5), 'wrong-element-type'),
@@ -272,7 +274,7 @@ def tolerance_opt(default):
                [I(0), I(0.1), I(5), I('0%', percent_check(0.0)), I('1%', percent_check(1.0)), I('0.01%', percent_check(0.01)),
                 I('2.5%', percent_check(2.5))],
                [O(-1, 'out-of-range'), O(-0.5, 'out-of-range'), O('-1%', 'out-of-range'), O('abc', 'malformed'),
-                O('5', 'malformed'), O(None, 'none'), O([0.1], 'wrong-container'), O(COMPLEX, 'complex')],
+                O('5', 'malformed'), O(None, 'none'), O([0.1], 'wrong-container'), O(COMPLEX, 'complex'), O(NAN, 'out-of-range', label='nan')],
                default_cfg=dflt, kind='bounded-number')
 
 
@@ -545,7 +547,7 @@ def integral_spec():
 def sum_spec():
     extra = [
         Opt('infty_val', 1000, [I(1000), I(50)], [O(0, 'out-of-range'), O(-5, 'out-of-range'), O('a'), O(None, 'none'),
-                                                  O(COMPLEX, 'complex')], kind='bounded-number'),
+                                                  O(COMPLEX, 'complex'), O(NAN, 'out-of-range', label='nan')], kind='bounded-number'),
         Opt('infty_val_fact', 80, [I(80), I(20)], [O(0, 'out-of-range'), O(-5, 'out-of-range'), O('a'), O(None, 'none')]),
         ENUM('even_odd', 0, [0, 1, 2], [3, -1, 'a', 1.5, None]),
     ]
@@ -595,7 +597,7 @@ def random_function_spec():
         POSINT('input_dim', 1), POSINT('output_dim', 1), POSINT('num_terms', 3),
         Opt('center', 0, [I(0), I(1), I(-2.5)], [O('a'), O(None, 'none'), O([1], 'wrong-container')]),
         Opt('amplitude', 10, [I(1), I(0.5), I(10)], [O(0, 'out-of-range'), O(-1, 'out-of-range'), O('a'), O(None, 'none'),
-                                                    O(COMPLEX, 'complex')], kind='bounded-number'),
+                                                    O(COMPLEX, 'complex'), O(NAN, 'out-of-range', label='nan')], kind='bounded-number'),
         BOOL('complex', False),
     ], 'sampler')
 
@@ -704,7 +706,7 @@ def entry_comparer_spec():
 def linear_comparer_spec():
     def credit(name, default):
         return Opt(name, default, [I(None), I(0), I(0.5), I(1)],
-                   [O(1.5, 'out-of-range'), O(-0.1, 'out-of-range'), O('a', 'unordered'), O([1], 'unordered'), O(COMPLEX, 'unordered')],
+                   [O(1.5, 'out-of-range'), O(-0.1, 'out-of-range'), O('a', 'unordered'), O([1], 'unordered'), O(COMPLEX, 'unordered'), O(NAN, 'out-of-range', label='nan')],
                    kind='LinearComparer-credit-untyped')
 
     def msg(name, default):
@@ -720,7 +722,8 @@ def linear_comparer_spec():
 
 def unit_credit_opt(name, default):
     return Opt(name, default, [I(0), I(1), I(0.5), I(0.0), I(1.0), I(0.75)],
-               [O(1.5, 'out-of-range'), O(-0.1, 'out-of-range'), O('a'), O(None, 'none'), O([0.2], 'wrong-container')])
+               [O(1.5, 'out-of-range'), O(-0.1, 'out-of-range'), O('a'), O(None, 'none'), O([0.2], 'wrong-container'),
+                O(NAN, 'out-of-range', label='nan')])
 
 
 def linear_credit_spec():
